@@ -129,6 +129,7 @@ Proof.
   apply bind_ok in H. destruct H as (c3 & u3 & H3 & H).
   unfold m_addtx in H. inversion H. subst c'. clear H.
   rewrite Hflag in H3. cbn [when] in H3. unfold check_min_balance in H3.
+  destruct (mods_consistent c2); [|inversion H3].
   destruct (check_min_balance_list E c2 (modified c2)) as [[]|e] eqn:Hc; inversion H3. subst c3.
   intros a Ha. change (modified (addtx c2 (t_txid tx) (t_lv tx) (t_sender tx) (t_lease tx))) with (modified c2) in Ha.
   rewrite lookup_addtx. eapply check_min_balance_list_ok; eauto.
